@@ -48,7 +48,8 @@ PayloadOf(m) == IF Kind = "aaf" THEN SubBytes(m, 24, 4) ELSE SubBytes(m, 28, N(m
 \*   ret: return value of the receive function; seqmsg: 1 iff it reports a sequence mismatch
 Judge(p, e) ==
   LET m == Seen(p) IN
-  IF Kind = "aaf" /\ Len(m) # 28 THEN [ret |-> -1, seqmsg |-> 0, exp |-> e, enq |-> << >>]
+  IF Kind = "aaf" /\ Len(m) # 28 THEN [ret |-> 0, seqmsg |-> 0, exp |-> e, enq |-> << >>]     \* not a PDU of this stream: dropped
+                                                                                            \* (a negative return would end the listener)
   ELSE IF Kind = "cvf" /\ Len(m) < 28 THEN [ret |-> 0, seqmsg |-> 0, exp |-> e, enq |-> << >>]
   ELSE IF ~Before(m) THEN [ret |-> 0, seqmsg |-> 0, exp |-> e, enq |-> << >>]
   ELSE LET s == N(m, View, "sequence_num") IN
